@@ -331,6 +331,7 @@ VK_STEP(update_base_hostname, u.update_base_hostname(VK_VALUE))
 VK_STEP(update_base_pathname, u.update_base_pathname(VK_VALUE))
 VK_STEP(append_base_pathname, u.append_base_pathname(VK_VALUE))
 VK_STEP(update_base_search, u.update_base_search(VK_VALUE))
+VK_STEP(update_base_search_enc, u.update_base_search(VK_VALUE, u.is_special() ? ada::character_sets::SPECIAL_QUERY_PERCENT_ENCODE : ada::character_sets::QUERY_PERCENT_ENCODE))
 VK_STEP(update_unencoded_base_hash, u.update_unencoded_base_hash(VK_VALUE))
 VK_STEP(update_base_port, u.update_base_port(uint32_t(p0)))
 VK_STEP(add_authority_slashes, u.add_authority_slashes_if_needed())
